@@ -301,18 +301,25 @@ pub struct KnownFile {
 }
 
 pub fn load_known(root: &Path, prop: &str) -> Vec<KnownFinding> {
-    let p = root.join("known_findings.json");
-    let Ok(txt) = std::fs::read_to_string(&p) else {
-        return vec![];
-    };
-    let kf: KnownFile = serde_json::from_str(&txt).unwrap_or_else(|e| {
-        eprintln!("cannot parse {}: {e}", p.display());
-        std::process::exit(2);
-    });
-    kf.findings
-        .into_iter()
-        .filter(|f| f.property == prop)
-        .collect()
+    // the committed file, plus per-property drafts under known_findings.d/ (development only)
+    let mut files = vec![root.join("known_findings.json")];
+    if let Ok(rd) = std::fs::read_dir(root.join("known_findings.d")) {
+        let mut extra: Vec<PathBuf> = rd.filter_map(|e| e.ok().map(|e| e.path())).collect();
+        extra.sort();
+        files.extend(extra);
+    }
+    let mut out = vec![];
+    for p in files {
+        let Ok(txt) = std::fs::read_to_string(&p) else {
+            continue;
+        };
+        let kf: KnownFile = serde_json::from_str(&txt).unwrap_or_else(|e| {
+            eprintln!("cannot parse {}: {e}", p.display());
+            std::process::exit(2);
+        });
+        out.extend(kf.findings.into_iter().filter(|f| f.property == prop));
+    }
+    out
 }
 
 // ------------------------------------------------------------------------------------------------
